@@ -284,7 +284,7 @@ func (cr *checkRun) account(o *OblResult, fn *ssa.Function, fc *FuncContract, pl
 			return
 		}
 		for uc, reason := range fc.Unclaimed {
-			if class == uc || strings.HasPrefix(class, uc+":") || (strings.HasSuffix(uc, "*") && strings.HasPrefix(class, strings.TrimSuffix(uc, "*"))) {
+			if class == uc || strings.HasPrefix(class, uc+":") || strings.HasPrefix(class, uc+"#") || (strings.HasSuffix(uc, "*") && strings.HasPrefix(class, strings.TrimSuffix(uc, "*"))) {
 				cr.notDecided = append(cr.notDecided, o.Name+": "+reason+" (now: "+o.Status+")")
 				return
 			}
